@@ -69,18 +69,51 @@ struct Args {
 
 // ------------------------------------------------------------------ output
 // The transcript goes to stdout, one record per line.
+//
+// SCREENING (option --screen N of a family that supports it): the records of a case are collected in memory and
+// written out only when the harness itself found the case suspicious (markSuspect(): a held function changed, an
+// evaluation threw, an == that must hold does not, ...) or for every N-th case as a sample.  The harness-side test
+// is only a SEARCH for failing inputs over far more cases than the acceptor could read; the verdict on every case
+// that is written out is still the acceptor's.  A crash writes out the collected records of the current case.
+struct Screen {
+    bool on = false, suspect = false;
+    long sampleEvery = 50, caseNo = 0, kept = 0, dropped = 0, suspects = 0;
+    FILE* mem = nullptr;
+    char* buf = nullptr;
+    size_t len = 0;
+};
+inline Screen& SCREEN() { static Screen s; return s; }
+inline FILE* OUT() { Screen& s = SCREEN(); return s.mem ? s.mem : stdout; }
+inline void markSuspect() { SCREEN().suspect = true; }
+void screenInstallCrashFlush();       // common.cc
 inline void emit(const char* fmt, ...) __attribute__((format(printf, 1, 2)));
 inline void emit(const char* fmt, ...) {
     va_list ap;
     va_start(ap, fmt);
-    vfprintf(stdout, fmt, ap);
+    vfprintf(OUT(), fmt, ap);
     va_end(ap);
-    fputc('\n', stdout);
+    fputc('\n', OUT());
 }
 // case brackets; flushing keeps the transcript complete up to a crash
-inline void beginCase(long c) { fprintf(stdout, "case %ld\n", c); fflush(stdout); }
-inline void endCase() { fputs("endcase\n", stdout); fflush(stdout); }
-inline void emits(const std::string& s) { fputs(s.c_str(), stdout); fputc('\n', stdout); }
+inline void beginCase(long c) {
+    Screen& s = SCREEN();
+    if (s.on) { s.mem = open_memstream(&s.buf, &s.len); s.suspect = false; s.caseNo = c; }
+    fprintf(OUT(), "case %ld\n", c);
+    if (!s.mem) fflush(stdout);
+}
+inline void endCase() {
+    Screen& s = SCREEN();
+    fputs("endcase\n", OUT());
+    if (s.mem) {
+        fclose(s.mem); s.mem = nullptr;
+        bool keep = s.suspect || (s.sampleEvery > 0 && s.caseNo % s.sampleEvery == 0);
+        if (s.suspect) ++s.suspects;
+        if (keep) { fwrite(s.buf, 1, s.len, stdout); ++s.kept; } else ++s.dropped;
+        free(s.buf); s.buf = nullptr; s.len = 0;
+    }
+    fflush(stdout);
+}
+inline void emits(const std::string& s) { fputs(s.c_str(), OUT()); fputc('\n', OUT()); }
 
 // distribution counters, printed at the end as `stat <key> <count>` lines
 struct Stats {
